@@ -31,6 +31,9 @@ CONFIGS = {
     'PH':  ('', '', ['CLIPPER2_HI_PRECISION=1'], '-O2'),
 }
 
+RUNTIME_STATE_SYMS = ['rand', 'srand', 'random', 'srandom', 'drand48', 'lrand48', 'mrand48', 'srand48', 'strtok', 'setlocale', 'putenv', 'setenv', 'unsetenv',
+                      '_ZSt15set_new_handlerPFvvE', '_ZSt13set_terminatePFvvE']
+
 LIB_SRCS = ['clipper.engine.cpp', 'clipper.offset.cpp', 'clipper.rectclip.cpp']
 WORK_SRCS = ['work.cpp', 'workx.cpp']
 EXE_SRCS = ['main.cpp', 'gen.cpp', 'plan.cpp', 'rt.cpp']
@@ -64,7 +67,9 @@ def flags_for(cfg):
     if 'address' in san:
         exe.append('-D_GLIBCXX_SANITIZE_VECTOR')    # must agree with the .so: std::vector code is shared across the boundary
     link_so = ['-shared'] + sanflags + ['-Wl,-z,now,-z,relro',
-               '-Wl,--wrap=__cxa_guard_acquire,--wrap=__cxa_guard_release,--wrap=__cxa_guard_abort']
+               '-Wl,--wrap=__cxa_guard_acquire,--wrap=__cxa_guard_release,--wrap=__cxa_guard_abort',
+               # process-global state of the C/C++ runtime: any use by library code is reported (C14)
+               '-Wl,' + ','.join('--wrap=' + s for s in RUNTIME_STATE_SYMS)]
     link_exe = sanflags + ['-rdynamic', '-lpthread', '-ldl']
     return lib, exe, link_so, link_exe
 
